@@ -140,6 +140,26 @@ def chk_surface(case, note):
         note.cls("near-transition")
     note.cls("t0>t1" if t0 > t1 else ("t0<t1" if t0 < t1 else "t0==t1"))
     note.nt(eq or mer or tr)
+    if b1 & 7 == 0:
+        # receivers (all but) exactly half-way between two of the four longitude candidates: the choice may fall either way, but the call
+        # answers - with one of the candidates, never with an exception of another kind than RuntimeError
+        good = call(pms.adsb.position, m0, m1, T0, T1, rl, ro)
+        if good[0] == "ok" and good[1] is not None:
+            glat, glon = good[1]
+            for k in range(4):
+                centre = (glon % 90.0) + 90.0 * k - 45.0
+                for j in (-3, -2, -1, 0, 1, 2, 3):
+                    lr = centre
+                    for _ in range(abs(j)):
+                        lr = math.nextafter(lr, math.inf if j > 0 else -math.inf)
+                    lr = cg.wrap_lon(lr)
+                    r = call(pms.adsb.position, m0, m1, T0, T1, rl, lr)
+                    if r[0] == "raise" and r[1] != "RuntimeError":
+                        return "position(%s, %s, %r, %r, %r, %r) raised %r (receiver half-way between two longitude candidates)" % (m0, m1, t0, t1, rl, lr, r[1:])
+                    if r[0] == "ok" and r[1] is not None:
+                        if abs(r[1][0] - glat) > 1e-9 or min(cpr.lon_diff(r[1][1], glon + 90.0 * q) for q in range(4)) > 1e-9:
+                            return "position(%s, %s, %r, %r, %r, %r) = %r, not one of the four candidates of (%r, %r)" % (m0, m1, t0, t1, rl, lr, r[1], glat, glon)
+        note.cls("tie-receivers")
     if not case.get("_swapped") and b0 & 1:
         # the identical two strings once more with the time stamps exchanged
         return chk_surface(dict(case, t0=case["t1"], t1=case["t0"], _swapped=True), type(note)())
